@@ -55,6 +55,21 @@ def run(pid, tier):
             key = "gauss/%s/%s/%s%s" % (e["fn"], e["kind"], "%dx%d" % (len(e["A"]), len(e["A"][0])), "/lsq" if e["lsq"] else "")
             V.add(key, "solve %s (%s, kind %s, %dx%d, lsq=%s, outcome %s): solution rejected by SolveObs / PermObs" % (e["key"], e["fn"], e["kind"], len(e["A"]), len(e["A"][0]), e["lsq"], e["o"]),
                   {"engine": "gauss", "event": e})
+    # growth beyond the listed property: the tensor products the solver's least-squares mode is built on
+    prod = os.path.join(d, "products.ndjson")
+    nprod = 0
+    if vlib.record(V, ["gauss", "products", "--seed", seed, "--n", 300 if quick else 5000, "--out", prod]):
+        ps, _ = vlib.split_file(prod, 2 if quick else 10, prod + ".s")
+        prs = tlc_parallel([dict(module="Trace_Linalg", env={"TRACE": q}, tag="%s-lin%d" % (tag, k), cont=True, timeout=3000) for k, q in enumerate(ps)])
+        for q, r in zip(ps, prs):
+            nprod += r.get("distinct", 0)
+            E = None
+            for v in r["violations"]:
+                if E is None:
+                    E = vlib.read_ndjson(q)
+                e = E[int(v["state"]["i"]) - 1]
+                V.add("linalg/products/%s" % e["kind"], "tensor products %s (kind %s): a recorded result is not the product Linalg.tla defines" % (e["key"], e["kind"]),
+                      {"engine": "gauss", "module": "Trace_Linalg", "event": e})
     bind = {"skipped": "violations were found"}
     if traces and not V.viol:
         E = vlib.read_ndjson(traces[-1])
@@ -79,7 +94,7 @@ def run(pid, tier):
         e = vlib.read_ndjson(traces[-1])[0]
         sample = [{"key": e["key"], "fn": e["fn"], "kind": e["kind"], "shape": [len(e["A"]), len(e["A"][0])], "lsq": e["lsq"], "perm": e["perm"]}]
     cov = dict(states=sum(r.get("distinct", 0) for r in rs), transitions=sum(r.get("generated", 0) for r in rs), action_coverage=coverage_summary(rs[0]["out"]),
-               traces_validated_against_impl=events, evaluations=events, distinct_nontrivial=events,
+               traces_validated_against_impl=events, evaluations=events, distinct_nontrivial=events, tensor_product_events=nprod,
                rule="model: every non-singular N x N integer matrix over the entry set, elimination explored action by action on exact rationals; traces: the same matrices through dsolve (f64 / Dual / Dual2 entries tagged with random variable subsets) and fdsolve (float matrix, f64 / Dual / Dual2 right-hand side), seeded random square systems 1..8 (permutation-scrambled, sparse, so that pivoting is forced) and tall least-squares systems, each also solved after a random row permutation",
                exhaustive=False, binding_demo=bind, samples=sample)
     assumptions = ["residuals are compared with zero against 1e-9 of the sum of absolute values of their terms (+1e-12); permuted solutions to 1e-7 relative (generated systems are well conditioned)",
